@@ -830,6 +830,9 @@ def run(chk):
     if not seen_back:
         chk.violation(r_bl, "append:current", "ScheduleDeck constructor: keywords are no longer appended to m_blocks.back()", ctor["file"], loops_c[0]["l"])
 
+    from verif import fallthrough
+    fallthrough.run(chk, "C03", floor=2)
+
     chk.assumptions += [
         "intraprocedural alias classification (verif/cow.py): a handle is followed through references, pointers, smart pointers, iterators and range-for variables; calls are judged by the callee's parameter types",
         "tables/c03_*.json: allow-lists, one (function, item) pair and one reason per entry",
